@@ -1,6 +1,6 @@
 /-
   C02 — Circular references between singletons resolve: start-up terminates for every dependency graph.
-  PROPERTY THEOREMS ONLY (lemmas live in IocProofs/Lemmas/M2Term.lean, M2TermSelf.lean).
+  PROPERTY THEOREMS ONLY (lemmas live in IocProofs/Lemmas/M2Term.lean, M2TermSelf.lean, M2Succeeds*.lean).
 
   Model: Ioc.Container (M2), the component factory as a small-step machine over the three-level singleton cache.
     container/factory/factory.go:92-118    Refresh: one GetComponent per non-lazy definition (work lists `todoBoot`, `todo`)
@@ -18,6 +18,7 @@
   is kept in the signature of `C02_terminates` for callers and is not used.
 -/
 import IocProofs.Lemmas.M2TermSelf
+import IocProofs.Lemmas.M2SucceedsPerm
 import Ioc.Generated.Facts
 namespace Ioc.C02
 open Ioc Ioc.M2
@@ -148,5 +149,78 @@ example :
     ∃ f rest, st.status = .running ∧ st.stack = f :: rest ∧ f.name = 0 ∧ f.p = 0 ∧ f.d = 1 ∧
       f.acc = [raw 0] ∧ (step sc st).status = .running ∧ (step sc st).fields 0 0 = [] :=
   ⟨⟨0, 0, 1, [raw 0]⟩, [], by decide, rfl, rfl, rfl, rfl, rfl, by decide, by decide⟩
+
+/-! ### the success characterisation
+
+  Vocabulary (IocProofs/Lemmas/M2SucceedsDefs.lean), all on the scenario alone — the machine is not mentioned:
+  `Sx.NoSubstitution sc`  no post-processor substitutes a component: `earlyO n = raw n ∧ afterO n = raw n` for every n.
+  `Sx.Reach sc n`         least set containing `boot ++ eager` and closed under "candidate of a point of `pts sc n`".
+  `Sx.StaticFault sc n`   n is not a definition; or n is wired and its configuration fails / a required point has no
+                          candidate (`points n = none`); or a callback of n fails (`Lc.CbFault`); or n has a required point
+                          with candidates that are all n itself (`Sx.SelfOnly`) or with a candidate other than n that is
+                          not assignable (`Sx.Unassignable`).
+  `Sx.NoFault sc`         `static`: no reached name has a static fault; `early`: no reached name has a failing
+                          early-reference factory (that fault is only met when the early reference is asked for, which
+                          depends on the creation order — see C10_counterexample_early).
+  `Sx.NoFaultOn sc S`     decidable certificate for `NoFault`: the list S contains boot ++ eager, is closed under candidates
+                          and is fault free (`Sx.noFault_of_on`).
+  `Sx.expected n pt`      what the field of point `pt` of holder `n` holds: `[]` when no candidate other than n exists or
+                          one of them is not assignable, else the registered instances of all of them (slice) / of the
+                          first (single).
+-/
+section succeeds
+open Ioc.M2.Sx
+
+/-- For every dependency graph — cycles of any length, overlapping cycles, cycles through slices, any candidate order —
+    when no post-processor substitutes components and no reachable component has a fault, start-up SUCCEEDS. -/
+theorem C02_succeeds (sc : Scen) (ns : NoSubstitution sc) (nf : NoFault sc) : (final sc).status = .done :=
+  succeeds sc ns nf
+
+/-- … and the faults listed are exactly what can make it fail: without substitution and without a failing
+    early-reference factory on a reachable name, the start succeeds IFF no reachable name has a static fault. -/
+theorem C02_succeeds_iff (sc : Scen) (ns : NoSubstitution sc) (he : ∀ n, Reach sc n → sc.fEarly n = false) :
+    (final sc).status = .done ↔ ∀ n, Reach sc n → ¬ StaticFault sc n :=
+  done_iff sc ns he
+
+/-- After a successful start without substitution every reachable name is published as its registered instance and
+    every one of its injection points holds exactly the registered instances of its usable candidates. -/
+theorem C02_wired (sc : Scen) (ns : NoSubstitution sc) (hd : (final sc).status = .done) (n : Nat) (hn : Reach sc n) :
+    (final sc).l1 n = some (raw n) ∧
+    ∀ i pt, (pts sc n)[i]? = some pt → (final sc).fields n i = expected n pt := by
+  have hpub := done_reach_published sc ns.wf _ hd n hn
+  have hnf : ¬ Lc.Failed (final sc) := fun ⟨x, s, h⟩ => by rw [hd] at h; cases h
+  refine ⟨?_, fun i pt hpt => fields_expected sc ns hnf n i pt hpt hpub⟩
+  cases h : (final sc).l1 n with
+  | none => exact absurd h hpub
+  | some o => rw [l1_raw sc ns _ n o h]
+
+/-- Every required injection point (with candidates; a required point without any is `points n = none`, a static fault)
+    of every reachable component is populated by its target at the end. -/
+theorem C02_required_populated (sc : Scen) (ns : NoSubstitution sc) (nf : NoFault sc) (n : Nat) (hn : Reach sc n)
+    (i : Nat) (pt : Point) (hpt : (pts sc n)[i]? = some pt) (hreq : pt.required = true) (hne : pt.cands ≠ []) :
+    (final sc).fields n i ≠ [] ∧ (final sc).fields n i = expected n pt := by
+  have hw := (C02_wired sc ns (succeeds sc ns nf) n hn).2 i pt hpt
+  refine ⟨?_, hw⟩
+  rw [hw]
+  exact expected_ne_nil hreq hne (fun hb => nf.static n hn (Or.inr (Or.inr (Or.inr ⟨pt, List.mem_of_getElem? hpt, hb⟩))))
+
+/-! non-vacuity: the 3-cycle with slice fan-in and diamond tail, the 5-cycle, the overlapping cycles -/
+theorem plain_noSubst (names : List Nat) (points : Nat → Option (List Point)) : NoSubstitution (plain names points) :=
+  fun _ => ⟨rfl, rfl⟩
+example : NoFaultOn cyc [0, 1, 2, 3, 4] := by decide
+example : NoFault cyc := noFault_of_on (S := [0, 1, 2, 3, 4]) (by decide)
+example : NoFault cyc5 := noFault_of_on (S := [0, 1, 2, 3, 4]) (by decide)
+example : NoFault overlap := noFault_of_on (S := [0, 1, 2, 3]) (by decide)
+example : (final cyc).status = .done := C02_succeeds cyc (plain_noSubst _ _) (noFault_of_on (S := [0, 1, 2, 3, 4]) (by decide))
+-- the hypotheses of C02_required_populated: 2 is reachable, its point 0 is required with the candidate 0 (on the cycle)
+example : Reach cyc 2 := ((Reach.root (n := 0) (by decide)).edge 1 (by decide)).edge 2 (by decide)
+example : (pts cyc 2)[0]?.map (fun p => (p.cands, p.required)) = some ([0], true) ∧
+    expected 2 ⟨[0], false, true, []⟩ = [raw 0] ∧ expected 0 ⟨[1, 2, 3], true, true, []⟩ = [raw 1, raw 2, raw 3] := by decide
+-- the self-only required point is a static fault, and (C02_succeeds_iff) the start fails
+example : StaticFault (selfLoop true) 0 ∧ Reach (selfLoop true) 0 := ⟨by decide, Reach.root (by decide)⟩
+example : (final (selfLoop true)).status ≠ .done :=
+  fun h => (C02_succeeds_iff _ (plain_noSubst _ _) (fun _ _ => rfl)).mp h 0 (Reach.root (by decide)) (by decide)
+
+end succeeds
 
 end Ioc.C02
